@@ -289,4 +289,12 @@ func (*parser).alias [C07]
 func (*parser).resolveModuleImport$2 [C03]
   safe nilrecv
   requires d == nil ==> path == inclPath
+
+// the helper that records the type of the next declared parameter never writes past the parameter list
+// (its counter starts at 1 in the enclosing function and is only incremented)
+func (*parser).parseFunctionParameters$2 [C03]
+  safe bounds
+  requires i >= 0
+  // ASSUMED: the calls made here (type parsing, the validate callback) do not touch the enclosing function's counter
+  preserves *int
 @*/
